@@ -3,7 +3,7 @@ Functions under contract: app_pointer_map::{app_pointer_map, get_unused_index, g
 lookup_index} (rlbox_app_pointer.hpp:30-90), app_pointer::{move ctor, operator=, unregister, ~app_pointer, to_tainted}
 (rlbox_policy_types.hpp:176-272), rlbox_sandbox::get_app_pointer / lookup_app_ptr (rlbox_sandbox.hpp:987-1020).
 Abstract view of the table: the M-map arrays present[token], val[token] over the whole token space."""
-from vlib.unit import Unit, Inst, find_func
+from vlib.unit import Unit, Inst, find_func, member_callees
 from .common import cs, PRE_GHOST, mi
 
 PROP = 'C15'
@@ -54,7 +54,7 @@ def unused_loops(t):
           '__CPROVER_loop_invariant($LV >= 1 && $LV <= $this->counter && $this->counter == __CPROVER_loop_entry($this->counter))\n'
           '__CPROVER_loop_invariant((g_k >= 1 && g_k < $LV) ==> %s.present[g_k])\n'
           '__CPROVER_decreases(MI($this->counter) - MI($LV))' % M)
-    return {('get_unused_index', 0): l0, ('get_unused_index', 1): l1}
+    return {('*root*', 0): l0, ('*root*', 1): l1}
 
 
 def table_harness(t, extra=''):
@@ -63,11 +63,20 @@ def table_harness(t, extra=''):
             '  _Bool in_noabort; g_noabort = in_noabort;\n' % (mp(t), ct)) + extra
 
 
+def _scan_helper(tu, t):
+    outer = find_func(tu, 'get_app_pointer_idx', 'rlbox::app_pointer_map<%s>' % t)
+    cs_ = member_callees(tu, outer)
+    if not cs_:
+        raise Exception('get_app_pointer_idx calls no member function of app_pointer_map')
+    return cs_[0]
+
+
 def unused_index_inst(t, tier):
-    pick = lambda tu, fn: find_func(tu, 'get_unused_index', 'rlbox::app_pointer_map<%s>' % t)
+    # the private scan helper is identified as the first member function get_app_pointer_idx calls, not by its name
+    pick = lambda tu, fn: _scan_helper(tu, t)
     h = table_harness(t) + '  %s r = $ROOT(&m, in_limit);\n' % TOK[t][0]
     return Inst('c15_get_unused_index_%s' % t.replace(' ', '_'), 'app_pointer_map<%s>& m, void* p, %s lim' % (t, t), 'm.get_app_pointer_idx(p, lim);',
-                unused_index_cl(t), h, leaves=['dynamic_check'], prop=PROP, root_name='get_unused_index', tier=tier, pre=GHOST, root_pick=pick,
+                unused_index_cl(t), h, leaves=['dynamic_check'], prop=PROP, root_name=None, tier=tier, pre=GHOST, root_pick=pick,
                 loop_contracts=unused_loops(t), note='two scans by loop contracts; witness token g_k instead of forall')
 
 
@@ -89,10 +98,16 @@ def get_idx_inst(t, tier):
           ('others_unchanged', '__CPROVER_ensures(g_o != $ret ==> (%s.present[g_o] == __CPROVER_old(%s.present[g_o]) && (%s.present[g_o] ==> %s.val[g_o] == __CPROVER_old(%s.val[g_o]))))' % (M, M, M, M, M)),
           ('well_formed_after', '__CPROVER_ensures(%s && $this->counter <= $1 + 1)' % wf('$this')),
           ('frame', '__CPROVER_assigns(*$this)')]
-    leaf = ('get_unused_index(contract)', _is('get_unused_index'), unused_index_cl(t, for_leaf=True))
+    scan_ids = set()
+
+    def pick(tu, fn):
+        # root: get_app_pointer_idx (as the snippet binds it); its scan helper is remembered by declaration id
+        scan_ids.add(_scan_helper(tu, t)['id'])
+        return find_func(tu, 'get_app_pointer_idx', 'rlbox::app_pointer_map<%s>' % t)
+    leaf = ('scan helper of get_app_pointer_idx(contract)', lambda fn, rec: fn['id'] in scan_ids, unused_index_cl(t, for_leaf=True))
     h = table_harness(t, '  void *in_ptr;\n') + '  __CPROVER_assume(in_o <= %dUL);\n  %s r = $ROOT(&m, in_ptr, in_limit);\n' % (tmax(t), TOK[t][0])
     return Inst('c15_get_app_pointer_idx_%s' % t.replace(' ', '_'), 'app_pointer_map<%s>& m, void* p, %s lim' % (t, t), 'm.get_app_pointer_idx(p, lim);',
-                cl, h, leaves=['dynamic_check', leaf], prop=PROP, root_name='get_app_pointer_idx', tier=tier, pre=GHOST)
+                cl, h, leaves=['dynamic_check', leaf], prop=PROP, root_name='get_app_pointer_idx', tier=tier, pre=GHOST, root_pick=pick)
 
 
 def remove_inst(t, tier):
